@@ -25,6 +25,8 @@ EXPLANATION = ('R18.1 from every kill point (prefix of the effect trace) the res
                'per-case progress (concurrent workers); R18.7 kill, restart, kill again, restart; R18.8 cases that raised in the first call and succeeded in the restart are not executed by any further call.')
 
 
+TECHNIQUE += '; scenarios with a post-processing function (its directory and product file are part of the modelled file system)'
+
 def run(chk):
     repo = Repo(chk.repo)
     m = repo.by_path('TidalPy/utilities/multiprocessing/multiprocessing.py')
